@@ -16,8 +16,16 @@ tie to code: a pipeline plugin (harness/c11_plugin.py) translates every explored
                (5) model text (fresh object, and after the history [pool0, pool1, p]) = real text
                (6) top-level declarations visited from three hand-set states: texts and final state
                (7) model state after a history = the real object's attributes
-               (8) `tu.is_sam` on every class = model's answer (= False, theorem is_sam_never)
-             and replays the witnesses of the counterexample theorems and of finding 14 on the real code.
+               (8) `tu.is_sam` on every class = model's answer (= False, theorem is_sam_never)      [Kotlin]
+               (9) model text after [pool0] and an explicit `_reset_state()` = real text        [Scala]
+              (10) random UNTYPED trees over all node kinds (c11_random_ast.py) visited from random hand-set
+                   states: texts and final state, model = real; state restored as Scala.visit_state says [Scala]
+             Modelled: Kotlin (Props/C11.lean) and Scala (Props/C11Scala.lean, namespace Heph.Props.C11.Scala,
+             audited with C11: Scala.visit_state, Scala.history_independent, Scala.translate_twice,
+             Scala.reset_state_forgets, …; model lean/Heph/Model/TransScala.lean, ops trans.scala*).
+             Replays the witnesses of the counterexample theorems (Kotlin and Scala: a block with a super-class
+             instantiation visited at ident 4), the demo program of Props/C11Scala.lean built with the real
+             classes (real text = model text = text of the Lean example) and finding 14 on the real code.
 failing input: (1)–(3) are judged on the real code alone, so a difference IS the failing input
              (language, generator replay (lang, seed, switches, depth), stage, history, first differing
              declaration).  If only (5)–(8) break, the history battery is re-run with all 12 histories
@@ -132,6 +140,9 @@ def model_requests(L, e, pool_exports):
                    "_cast_integers": cast})
     if "issam_op" in m:
         rq.append({"op": m["issam_op"], "program": e})
+    if m.get("reset"):
+        # last request: the text after [pool0] and an explicit `_reset_state()` (plugin key `<lang>_after_reset`)
+        rq.append({"op": m["op"], "program": e, "package": "src.pkg", "history": [pool_exports[0]], "reset": True})
     return rq
 
 
@@ -170,6 +181,11 @@ def model_judge(L, rq, ans, c11):
             mstate["stack_len"] = len(ma["state"].get("_nodes_stack", []))
             if mstate != rs:
                 out.append(("visit-state", {"init": real["init"], "real": rs, "model": mstate}))
+    if m.get("reset") and c11.get(L + "_after_reset") is not None:
+        if ans[-1]["r"] != c11[L + "_after_reset"]:
+            out.append(("text-after-reset", c11_plugin.first_diff(c11[L + "_after_reset"], ans[-1]["r"])))
+        if c11[L + "_after_reset"] != text:
+            out.append(("real-text-after-reset-differs-from-fresh", c11_plugin.first_diff(text, c11[L + "_after_reset"])))
     if "issam_op" in m and "is_sam" in c11:
         if ans[3 + len(VISIT_STATES)]["r"] != c11["is_sam"]:
             out.append(("is_sam", {"real": c11["is_sam"][:8], "model": ans[3 + len(VISIT_STATES)]["r"][:8]}))
@@ -205,6 +221,82 @@ def witness_block_super(run):
                       signature="witness:visit_restores_counterexample", no_input=True)
 
 
+def witness_scala(run):
+    """Scala: (a) the witness of `Scala.visit_restores_counterexample` (a block with a super-class instantiation
+    among its statements, visited at ident = 4, leaves ident = 0) on the real ScalaTranslator and in the model;
+    (b) the program `demo` of Props/C11Scala.lean built with the real classes: real text = model text = the text
+    the Lean `example` proves"""
+    pipeline.setup()
+    from src.translators.scala import ScalaTranslator
+    from src.ir import ast, scala_types as sc, types as tp
+    import export_ast
+    blk = ast.Block([ast.SuperClassInstantiation(sc.Any, None)], is_func_block=False)
+    tr = ScalaTranslator("src.pkg", {})
+    tr.ident = 4
+    tr.visit(blk)
+    real = {"ident": tr.ident, "text": tr._children_res[-1]}
+    e = export_ast.Exporter()
+    prog = {"lang": "scala", "decls": [e.node(blk)], "context": []}
+    prog["tt"] = e.tt.entries
+    # (b)
+    v = ast.Variable("v")
+    decls = [
+        ast.ClassDeclaration("B", [], ast.ClassDeclaration.REGULAR,
+                             fields=[ast.FieldDeclaration("x", sc.Integer, is_final=True, can_override=True)],
+                             functions=[], is_final=False, type_parameters=[]),
+        ast.ClassDeclaration("A", [ast.SuperClassInstantiation(tp.SimpleClassifier("B", []),
+                                                               [ast.IntegerConstant(1, sc.Integer)])],
+                             ast.ClassDeclaration.REGULAR,
+                             fields=[ast.FieldDeclaration("x", sc.Integer, is_final=True, can_override=False,
+                                                          override=True)],
+                             functions=[ast.FunctionDeclaration(
+                                 "f", [ast.ParameterDeclaration("a", sc.Integer)], sc.Long,
+                                 ast.IntegerConstant(-2, sc.Long), ast.FunctionDeclaration.CLASS_METHOD,
+                                 is_final=True, override=False, type_parameters=[])],
+                             is_final=True, type_parameters=[tp.TypeParameter("T", tp.Covariant)]),
+        ast.FunctionDeclaration(
+            "g", [], sc.Unit,
+            ast.Block([ast.VariableDeclaration("v", ast.IntegerConstant(3, sc.Long), is_final=True, var_type=None,
+                                               inferred_type=sc.Long),
+                       ast.FunctionReference("f", v, None),
+                       ast.FunctionCall("p.q", [ast.CallArgument(v)], None, type_args=[sc.Integer])],
+                      is_func_block=True),
+            ast.FunctionDeclaration.FUNCTION, is_final=True, override=False, type_parameters=[])]
+    tr2 = ScalaTranslator("src.pkg", {})
+    for d in decls:
+        tr2.visit(d)
+    real_demo = "package src.pkg\n" + "\n\n".join(tr2._children_res)
+    e2 = export_ast.Exporter()
+    demo = {"lang": "scala", "decls": [e2.node(d) for d in decls], "context": []}
+    demo["tt"] = e2.tt.entries
+    a = common.run_driver([{"op": "trans.scala.visit", "program": prog, "ident": 4},
+                           {"op": "trans.scala", "program": demo, "package": "src.pkg"}])
+    for x in a:
+        if "error" in x:
+            raise common.HarnessError("driver: " + x["error"])
+    model = {"ident": a[0]["r"]["state"]["ident"], "text": a[0]["r"]["texts"][0]}
+    run.cov["witness_scala_visit_restores_counterexample"] = {"real": real, "model": model}
+    run.count({"witness": "Scala.visit_restores_counterexample"})
+    if real["ident"] != 0 or model != real:
+        run.violation({"kind": "broken-correspondence", "witness": "Scala.visit_restores_counterexample", "real": real,
+                       "model": model, "note": "the witness of the counterexample theorem behaves differently on "
+                                               "the real code (expected ident 0 after the visit)"},
+                      signature="witness:Scala.visit_restores_counterexample", no_input=True)
+    run.count({"witness": "Scala.demo"})
+    run.cov["witness_scala_demo_text"] = real_demo
+    if not (real_demo == a[1]["r"] == SCALA_DEMO_TEXT):
+        run.violation({"kind": "broken-correspondence", "witness": "Scala.demo", "real": real_demo, "model": a[1]["r"],
+                       "lean_example": SCALA_DEMO_TEXT,
+                       "note": "the program `demo` of Props/C11Scala.lean is printed differently by the real "
+                               "ScalaTranslator, the model, or the text proved in the Lean example"},
+                      signature="witness:Scala.demo", no_input=True)
+
+
+SCALA_DEMO_TEXT = ("package src.pkg\nopen class B(val x: Int)\n\nclass A[+T <: Any](final override val x: Int) extends B(1) {\n"
+                   "final def f(a: Int): Long =\n  -2.toLong\n}\n\ndef g(): Unit =\n{\n  val v = 3.toLong;\n"
+                   "  val _y = v.f _;\n    p`q`[Int](v);\n  }")
+
+
 def witness_finding14(run):
     import c11_finding14 as f14
     res = {}
@@ -220,6 +312,56 @@ def witness_finding14(run):
                                        "(harness/c11_finding14.py builds the class table)"},
                               signature=f14.SIGNATURE)
     run.cov["finding14_program_changed"] = res
+
+
+def stream_random_trees(run, n):
+    """Scala: random UNTYPED trees over all node kinds (harness/c11_random_ast.py), visited from a random hand-set
+    state by the real ScalaTranslator and by the model: texts of the visits, state afterwards, and the theorem
+    `Scala.visit_state` read on the real object (everything restored except ident, which is 0 or unchanged)"""
+    import c11_random_ast as ra
+    pipeline.setup()
+    from src.translators.scala import ScalaTranslator
+    batch, reals = [], []
+    for decls, init in ra.cases(run.rng, n):
+        try:
+            real = ra.real_visit(ScalaTranslator, decls, init)
+        except Exception as e:  # noqa: BLE001  (exceptions of the translator are not modelled)
+            run.tally("random_trees_translator_raises", type(e).__name__)
+            continue
+        prog = ra.export_decls(decls)
+        batch.append(dict(init, op="trans.scala.visit", program=prog))
+        reals.append((real, init, prog))
+    answers = common.run_driver(batch) if batch else []
+    bad = 0
+    for (real, init, prog), a in zip(reals, answers):
+        if "error" in a:
+            raise common.HarnessError("driver (random trees): " + a["error"])
+        import export_ast
+        import hashlib
+        run.count({"random_tree": hashlib.sha1(common.canon(prog).encode()).hexdigest()[:16], "init": init},
+                  nontrivial=True, sample_cap=8)
+        run.cov["random_tree_nodes"] = run.cov.get("random_tree_nodes", 0) + export_ast.count_nodes(prog["decls"])
+        ms = {k: a["r"]["state"].get(k) for k in ("ident", "is_unit", "is_lambda", "_cast_integers")}
+        ms["stack_len"] = len(a["r"]["state"].get("_nodes_stack", []))
+        rs = real["state"]
+        restored = (rs["is_unit"], rs["is_lambda"], rs["_cast_integers"], rs["stack_len"]) == \
+                   (init["is_unit"], init["is_lambda"], init["_cast_integers"], 1) and rs["ident"] in (0, init["ident"])
+        if a["r"]["texts"] != real["texts"] or ms != rs or not restored:
+            bad += 1
+            if bad == 1:
+                j = next((k for k, (x, y) in enumerate(zip(a["r"]["texts"], real["texts"])) if x != y), -1)
+                import c11_plugin
+                run.violation({"kind": "broken-correspondence", "translator": "scala", "leg": "random-trees",
+                               "init": init, "program": prog, "real_state": rs, "model_state": ms,
+                               "state_restored_as_visit_state_says": restored,
+                               "first_difference": c11_plugin.first_diff(real["texts"][j], a["r"]["texts"][j]) if j >= 0 else None,
+                               "note": "the Lean model of the Scala translator and the real translator differ on a "
+                                       "hand-made (untyped) tree; the tree is the input"},
+                              signature="model-differs:scala:random-trees" if restored else "translator-state-not-restored:scala:random-trees",
+                              no_input=restored)
+    run.cov["random_trees_compared"] = len(reals)
+    run.cov["random_trees_differ"] = bad
+    run.log("random untyped trees (scala): %d compared, %d differ" % (len(reals), bad))
 
 
 # ------------------------------------------------------------------ the check
@@ -353,6 +495,9 @@ def check(run):
 
     # witnesses first (corpus)
     witness_block_super(run)
+    if "scala" in MODELS:
+        witness_scala(run)
+        stream_random_trees(run, 300 if quick else 4000)
     witness_finding14(run)
 
     nprog, hist, cap, budget = (40, 5, 100, 100) if quick else (1000, 12, 150, 1500)
@@ -386,6 +531,10 @@ def replay(run, rp):
     if rp.get("witness") == "finding14":
         witness_finding14(run)
         run.cov["rule"] = "replay of the finding-14 class table"
+        return
+    if str(rp.get("witness", "")).startswith("Scala."):
+        witness_scala(run)
+        run.cov["rule"] = "replay of the Scala witnesses"
         return
     if rp.get("witness") == "visit_restores_counterexample":
         witness_block_super(run)
